@@ -418,3 +418,51 @@ def r9(ctx):
                 want = f"token belongs to the current argument, depth becomes {dd}"
             ctx.check(ok, key, f"expected {want}; got {p.describe()} depth'={d2}", exp.loc(loop))
     ctx.floor(8)
+
+
+@rule("C03.R10", "definition-time bookkeeping: ## next to a parameter always defers pasting to call time; the needs-pre-expansion flag is only ever raised")
+def r10(ctx):
+    repo = ctx.repo
+    pr = repo.cls("preprocessor", "Macro").find_method("preproc_replacement")
+    ctx.require(pr is not None, "Macro.preproc_replacement missing")
+    # (a) arg_needs_expansion[...] is only assigned True (a later ## use must not cancel an earlier plain use)
+    n = 0
+    for c in (repo.cls("preprocessor", "Macro"), repo.cls("preprocessor", "MacroFunction")):
+        for f in c.methods.values():
+            for s in walk_no_nested(f.node):
+                if isinstance(s, ast.Assign) and isinstance(s.targets[0], ast.Subscript) and u(s.targets[0].value) == "self.arg_needs_expansion":
+                    n += 1
+                    ctx.check(isinstance(s.value, ast.Constant) and s.value.value is True, f"{f.key}:arg_needs_expansion:{u(s)}", f"`{u(s)}` lowers the needs-pre-expansion flag of a parameter: a parameter used both plainly and as an operand of ## must still be pre-expanded for its plain use", f.loc(s))
+    ctx.check(n >= 1, "preprocessor:Macro.preproc_replacement:raises-flag", "no site raises arg_needs_expansion", pr.loc())
+    init = repo.cls("preprocessor", "MacroFunction").find_method("__init__")
+    ok = any(isinstance(s, ast.Assign) and u(s.targets[0]) == "self.arg_needs_expansion" and u(s.value) == "[False for x in self.args]" for s in init.node.body)
+    ctx.check(ok, "preprocessor:MacroFunction.__init__:flags-start-false", "arg_needs_expansion must start False for every parameter", init.loc())
+    # (b) in the ## arm: whenever an operand is a parameter (which_arg != -1) the tokens are kept for call time AND has_strcat is set
+    arms = [s for s in walk_no_nested(pr.node) if isinstance(s, ast.If) and "arg_idx != -1" in u(s.test) or (isinstance(s, ast.If) and "which_arg" in u(s.test) and "!= -1" in u(s.test))]
+    hash_if = [s for s in walk_no_nested(pr.node) if isinstance(s, ast.If) and u(s.test) == "tok.token == '##'"]
+    ctx.require(len(hash_if) == 1, "preproc_replacement: `##` arm not found")
+    deferred = [a for a in arms if any(x is a for x in ast.walk(hash_if[0])) and any(isinstance(x, ast.Continue) for x in a.body)]
+    ctx.check(len(deferred) == 2, "preprocessor:Macro.preproc_replacement:two-deferral-arms", f"expected a left-operand and a right-operand deferral arm in the ## branch, found {len(deferred)}", pr.loc(hash_if[0]))
+    for i, a in enumerate(deferred):
+        sets = any(isinstance(x, ast.Assign) and u(x) == "self.has_strcat = True" for x in a.body)
+        keeps = sum(1 for x in ast.walk(a) if isinstance(x, ast.Call) and u(x.func) in ("res_tokens.append", "res_tokens.extend"))
+        ctx.check(sets and keeps >= 1, f"preprocessor:Macro.preproc_replacement:deferral-arm-{i}", "a ## whose operand is a parameter must keep its tokens for call time and mark the macro (has_strcat) so that MacroFunction.replace performs the paste", pr.loc(a))
+    # (c) consumer: MacroFunction.replace pastes only when has_strcat
+    rep = repo.cls("preprocessor", "MacroFunction").find_method("replace")
+    ok = any(isinstance(s, ast.If) and u(s.test) == "self.has_strcat" for s in rep.node.body)
+    ctx.check(ok, "preprocessor:MacroFunction.replace:has_strcat-gate", "call-time pasting is gated by has_strcat", rep.loc())
+    # (d) make_macro: function-like iff an argument list exists (even an empty one)
+    mm = repo.func("preprocessor", "make_macro")
+    from ..decision import Evaluator as _E, Hooks as _H
+
+    for p in _E(_H()).paths(mm.node):
+        isnone = p.atoms.get(f"None Eq {mm.params[1]}")
+        rv = vtext(p.result[1]) if p.result[0] == "return" else None
+        extra = [k for k in p.atoms if k != f"None Eq {mm.params[1]}"]
+        key = f"preprocessor:make_macro:args-none={isnone}"
+        if extra or isnone is None:
+            ctx.violation(key, f"the kind of macro must depend only on `args is None` (`#define F() x` has an empty, not a missing, parameter list): {p.describe()}", mm.loc())
+        else:
+            want = f"Macro({mm.params[0]}, {mm.params[2]})" if isnone else f"MacroFunction({mm.params[0]}, {mm.params[1]}, {mm.params[2]})"
+            ctx.check(rv == want, key, f"returns {rv}, expected {want}", mm.loc())
+    ctx.floor(8)
